@@ -1149,7 +1149,8 @@ class Executor:
                     self.report.fn(fn)
                 return None
             # 3b second attempt of a check (vcheck/main.py): small helper predicates no kernel knows by name are followed instead of havoc'd
-            if fn is not None and AUTO_INLINE and self._auto_inlinable(callee, fn) and len(st.stack) < self.max_depth + 40:
+            if fn is not None and AUTO_INLINE and (not AUTO_INLINE_ONLY or st.stack[0].fn.name.split("::{closure")[0] in AUTO_INLINE_ONLY) \
+                    and self._auto_inlinable(callee, fn) and len(st.stack) < self.max_depth + 40:
                 nf = Frame(fn, next(self.fid_counter), dest=dest, ret_bb=ret_bb)
                 if len(fn.params) == len(args):
                     for (p, _), v in zip(fn.params, args):
@@ -1371,6 +1372,7 @@ def derives_from(ex, v, oid, depth=0, st=None):
 
 
 AUTO_INLINE = False
+AUTO_INLINE_ONLY = set()       # when not empty: only while one of these functions is the one under analysis
 AUTO_INLINED = set()
 _KNOWN = None
 
